@@ -281,6 +281,8 @@ pub struct Operator {
 }
 impl Operator {
     pub fn execute(&self, items: &Vec<&Value>) -> Result<Value, Error> {
+        #[cfg(feature = "verif_hooks")]
+        crate::verif_hook::point("Operator::execute");
         (self.operator)(items)
     }
 }
@@ -305,6 +307,8 @@ pub struct LazyOperator {
 }
 impl LazyOperator {
     pub fn execute(&self, data: &Value, items: &Vec<&Value>) -> Result<Value, Error> {
+        #[cfg(feature = "verif_hooks")]
+        crate::verif_hook::point("LazyOperator::execute");
         (self.operator)(data, items)
     }
 }
@@ -334,6 +338,8 @@ pub struct DataOperator {
 }
 impl DataOperator {
     pub fn execute(&self, data: &Value, items: &Vec<&Value>) -> Result<Value, Error> {
+        #[cfg(feature = "verif_hooks")]
+        crate::verif_hook::point("DataOperator::execute");
         (self.operator)(data, items)
     }
 }
